@@ -41,6 +41,7 @@ ASSUMPTIONS = [
 
 RAW, BOX = "raw", "box"
 SCALAR = "raw-scalar"  # a user value known not to be iterable (is_iterable(x) was false)
+LAZY = "lazy"  # a lazy stream over user data (generator expression / filter / map / a repo wrapper holding one): storing is fine, iterating pulls
 
 # (function suffix, parameter) -> kind
 SEEDS: Dict[Tuple[str, str], str] = {
@@ -65,6 +66,15 @@ SEEDS: Dict[Tuple[str, str], str] = {
     ("predicate.symbolic_function.<locals>.wrapper", "args"): BOX, ("predicate.symbolic_function.<locals>.wrapper", "kwargs"): BOX,
     ("predicate.Predicate.__new__", "args"): BOX, ("predicate.Predicate.__new__", "kwargs"): BOX,
 }
+# builders that take krrood objects only: no user data enters through their parameters, but what they run is construction
+ENTRIES = ["quantify_entity.an", "quantify_entity.the", "rule.refinement", "rule.alternative", "rule.next_rule", "entity.inference",
+           "match.match", "match.match_any", "match.match_all", "match.select", "match.select_any", "match.select_all"]
+# one named field, one reason
+FIELD_EXEMPT = {
+    ("match.Match", "type_"): "a Match that holds a literal object as type_ is created with its variable already set (entity_matching / "
+                              "entity_selection), and only matches without a variable are ever resolved (AttributeAssignment.is_an_unresolved_match): "
+                              "the truth tests on type_ in the resolving code see a class or None",
+}
 PROBES = {"isinstance", "type", "id", "callable", "issubclass", "repr"}
 LAZY_WRAPPERS = {"filter", "map", "iter", "zip", "enumerate", "chain", "islice"}
 CONSUMERS = {"list", "tuple", "set", "frozenset", "sorted", "len", "next", "sum", "min", "max", "any", "all", "bool", "dict", "hash", "str", "reversed"}
@@ -79,6 +89,7 @@ class BuildTaint:
         self.work: List[FuncInfo] = []
         self.analysed = 0
         self.reached: Set[str] = set()  # functions the construction closure reaches
+        self.stream_fields: Set[Tuple[str, str]] = set()  # (owner class, field) holding a wrapper around a user stream
 
     def seed(self):
         for (fs, p), k in SEEDS.items():
@@ -89,10 +100,16 @@ class BuildTaint:
             if p not in allp:
                 raise AnalysisError(f"LAZY-BUILD: builder {fs} has no parameter {p}")
             self.taint_param(f, p, k)
+        for fs in ENTRIES:
+            f = self.prog.functions.get(next((q for q in self.prog.functions if q.endswith("." + fs)), ""), None)
+            if f is None:
+                raise AnalysisError(f"LAZY-BUILD: builder {fs} vanished")
+            if f not in self.work:
+                self.work.append(f)
 
     def taint_param(self, f: FuncInfo, p: str, kind: str):
         cur = self.params.setdefault(f.qual, {})
-        rank = {None: 0, BOX: 1, SCALAR: 2, RAW: 3}
+        rank = {None: 0, LAZY: 1, BOX: 2, SCALAR: 3, RAW: 4}
         if rank.get(cur.get(p), 0) >= rank.get(kind, 0):
             return
         cur[p] = kind
@@ -132,12 +149,108 @@ class BuildTaint:
         """repo class an expression denotes (self, self.field by annotation)"""
         if isinstance(e, ast.Name) and f.cls is not None and f.params and e.id == f.params[0]:
             return f.cls.qual
+        if isinstance(e, ast.Name):
+            # a local bound once to a constructor call, or a parameter annotated with a repo class
+            cons = [x.value for x in walk_local(f.node) if isinstance(x, ast.Assign) and any(isinstance(t, ast.Name) and t.id == e.id for t in x.targets)]
+            if len(cons) == 1 and isinstance(cons[0], ast.Call):
+                q = f.module.resolve(cons[0].func)
+                if q in self.prog.classes:
+                    return q
+            if not cons:
+                for a in f.node.args.args + f.node.args.kwonlyargs:
+                    if a.arg == e.id and a.annotation is not None:
+                        ann = a.annotation
+                        if isinstance(ann, ast.Constant) and isinstance(ann.value, str):
+                            try:
+                                ann = ast.parse(ann.value, mode="eval").body
+                            except SyntaxError:
+                                return None
+                        q = f.module.resolve(ann) if isinstance(ann, (ast.Name, ast.Attribute)) else None
+                        if q in self.prog.classes:
+                            return q
+            return None
         if isinstance(e, ast.Attribute):
             b = self.static_type(f, e.value)
             if b:
                 t = self.prog.field_type(b, e.attr)
                 return t if t in self.prog.classes else None
         return None
+
+    def wraps_user_stream(self, f: FuncInfo, e: ast.expr) -> bool:
+        """e is a field known to hold a repo wrapper (an iterable class) into which the construction code put a user stream:
+        the field was the receiver of a wrapper method that stored a tainted argument (self._domain_.set_iterable(domain)), or
+        was assigned such a value. HashedIterable is also used for sets of variables, so this is decided per field, not per class."""
+        if isinstance(e, ast.Attribute):
+            t = self.static_type(f, e.value)
+            if t is not None:
+                fi = self.prog.lookup_attr(t, e.attr)
+                owner = fi.owner if fi is not None else t
+                return (owner, e.attr) in self.stream_fields
+        return False
+
+    def note_wrapper_store(self, f: FuncInfo, c: ast.Call, ks, kws):
+        """self.<field>.<method>(tainted ...) where the method stores its argument in the wrapper: <field> holds a user stream"""
+        fn = c.func
+        if not (isinstance(fn, ast.Attribute) and isinstance(fn.value, ast.Attribute)):
+            return
+        if not any(k in (RAW, BOX, SCALAR, LAZY) for k in list(ks) + list(kws.values())):
+            return
+        recv = fn.value
+        t = self.static_type(f, recv.value)
+        wt = self.static_type(f, recv)
+        if t is None or wt is None or self.prog.lookup(wt, "__iter__") is None:
+            return
+        m = self.prog.lookup(wt, fn.attr)
+        if m is None:
+            return
+        stores = any(isinstance(x, (ast.Assign, ast.AnnAssign)) and any(is_self_attr(tt) for tt in (x.targets if isinstance(x, ast.Assign) else [x.target]))
+                     for x in walk_local(m.node))
+        if stores:
+            fi = self.prog.lookup_attr(t, recv.attr)
+            key = (fi.owner if fi is not None else t, recv.attr)
+            if key not in self.stream_fields:
+                self.stream_fields.add(key)
+                self.requeue_readers(recv.attr)
+
+    def requeue_readers(self, name: str):
+        for g in self.prog.functions.values():
+            if g.qual in self.reached and g not in self.work and any(isinstance(x, ast.Attribute) and x.attr == name for x in walk_local(g.node)):
+                self.work.append(g)
+
+    def draining_member(self, wt: str, name: str) -> Optional[str]:
+        """the wrapper's member `name` (method or property, not a generator) iterates the wrapper or a field of it"""
+        m = self.prog.lookup(wt, name)
+        if m is None or m.is_generator:
+            return None
+        for x in walk_local(m.node):
+            it = None
+            if isinstance(x, ast.For):
+                it = x.iter
+            elif isinstance(x, (ast.ListComp, ast.SetComp, ast.DictComp)):
+                it = x.generators[0].iter
+            elif isinstance(x, ast.Call) and isinstance(x.func, ast.Name) and x.func.id in CONSUMERS and x.args and x.func.id not in ("bool", "hash", "str", "len"):
+                it = x.args[0]
+            if it is not None and ((isinstance(it, ast.Name) and it.id == "self") or (is_self_attr(it) and it.attr in ("iterable",))):
+                return f"{m.short} iterates {src(it)}"
+        return None
+
+    def follow_property(self, f: FuncInfo, e: ast.Attribute):
+        """a read of a property runs its getter now: the getter belongs to the construction closure"""
+        t = self.static_type(f, e.value)
+        getters = []
+        if t is not None:
+            for c in [self.prog.classes[t]] + list(self.prog.subclasses(t, strict=True)):
+                g = self.prog.lookup(c.qual, e.attr)
+                if g is not None and g.is_property:
+                    getters.append(g)
+        elif not e.attr.startswith("__"):
+            # receiver of unknown static type: resolve by name over the package (as the call graph does for methods)
+            for g in self.prog.functions.values():
+                if g.name == e.attr and g.cls is not None and g.is_property and ".entity_query_language." in g.qual:
+                    getters.append(g)
+        for g in getters:
+            if g.qual not in self.reached and g not in self.work and not g.is_generator:
+                self.work.append(g)
 
     def analyse(self, f: FuncInfo):
         self.reached.add(f.qual)
@@ -164,6 +277,14 @@ class BuildTaint:
             if b == BOX and e.attr in ("items", "values", "keys"):
                 return BOX
             if not isinstance(e.ctx, ast.Store):
+                self.follow_property(f, e)
+                if self.wraps_user_stream(f, e.value):
+                    wt = self.static_type(f, e.value)
+                    m = self.prog.lookup(wt, e.attr) if wt else None
+                    if m is not None and m.is_property:
+                        d = self.draining_member(wt, e.attr)
+                        if d:
+                            self.sink(f, e, f"a lazily wrapped user iterable is drained ({d})")
                 fk = self.field_kind(self.static_type(f, e.value), e.attr)
                 return RAW if fk == SCALAR else fk
             return None
@@ -174,6 +295,10 @@ class BuildTaint:
                 return None
             if b == BOX:
                 return RAW
+            if self.wraps_user_stream(f, e.value):
+                d = self.draining_member(self.static_type(f, e.value), "__getitem__")
+                if d:
+                    self.sink(f, e, f"a lazily wrapped user iterable is searched ({d})")
             return None
         if isinstance(e, (ast.List, ast.Tuple, ast.Set)):
             ks = [self.kind(f, x, env) for x in e.elts]
@@ -183,7 +308,29 @@ class BuildTaint:
             return BOX if any(k in (RAW, BOX) for k in ks) else None
         if isinstance(e, ast.IfExp):
             self.truth(f, e.test, env)
-            a, b = self.kind(f, e.body, env), self.kind(f, e.orelse, env)
+            # the same refinements as for an if statement
+            e1, e2 = dict(env), dict(env)
+            pos, neg = self.refinements(f, e.test)
+            for k in pos:
+                e1[k] = ""
+            for k in neg:
+                e2[k] = ""
+            pt = self.plain_container_test(e.test)
+            if pt is not None and env.get(pt) in (RAW, SCALAR):
+                e1[pt] = BOX
+            bs = self.builtin_scalar_test(e.test)
+            if bs is not None and env.get(bs[0]) in (RAW, SCALAR):
+                (e1 if bs[1] else e2)[bs[0]] = ""
+            it = self.iterable_test(e.test)
+            dead_body = dead_else = False
+            if it is not None:
+                name, positive = it
+                if env.get(name) == SCALAR:
+                    dead_body, dead_else = positive, not positive
+                elif env.get(name) == RAW:
+                    (e2 if positive else e1)[name] = SCALAR
+            a = None if dead_body else self.kind(f, e.body, e1)
+            b = None if dead_else else self.kind(f, e.orelse, e2)
             return a or b
         if isinstance(e, ast.BoolOp):
             ks = []
@@ -215,10 +362,12 @@ class BuildTaint:
             return BOX if BOX in (a, b) else None
         if isinstance(e, ast.GeneratorExp):
             env2 = dict(env)
+            lazy = False
             for g in e.generators:
                 k = self.kind(f, g.iter, env2)
+                lazy = lazy or k in (RAW, LAZY, BOX, SCALAR) or self.wraps_user_stream(f, g.iter)
                 self.bind(g.target, RAW if k in (RAW, BOX) else None, env2)
-            return None  # lazy: the body runs at evaluation time
+            return LAZY if lazy else None  # lazy: the body runs at evaluation time
         if isinstance(e, (ast.ListComp, ast.SetComp, ast.DictComp)):
             env2 = dict(env)
             out = None
@@ -226,6 +375,8 @@ class BuildTaint:
                 k = self.kind(f, g.iter, env2)
                 if k == RAW:
                     self.sink(f, e, "a user iterable is iterated eagerly (comprehension)")
+                elif k == LAZY or self.wraps_user_stream(f, g.iter):
+                    self.sink(f, e, "a lazily wrapped user iterable is drained (comprehension)")
                 self.bind(g.target, RAW if k in (RAW, BOX) else None, env2)
                 for c in g.ifs:
                     self.truth(f, c, env2)
@@ -277,6 +428,19 @@ class BuildTaint:
         return None
 
     @staticmethod
+    def builtin_scalar_test(test) -> Optional[Tuple[str, bool]]:
+        """type(x) in (int, str, ...) / type(x) not in (...): (x, polarity). An exact builtin scalar runs no user code when it is
+        formatted, compared or hashed."""
+        if isinstance(test, ast.Compare) and len(test.ops) == 1 and isinstance(test.left, ast.Call) and isinstance(test.left.func, ast.Name) and test.left.func.id == "type" \
+                and len(test.left.args) == 1 and isinstance(test.left.args[0], ast.Name) and isinstance(test.ops[0], (ast.In, ast.NotIn, ast.Is, ast.IsNot)):
+            rhs = test.comparators[0]
+            elts = rhs.elts if isinstance(rhs, (ast.Tuple, ast.List, ast.Set)) else [rhs]
+            names = [x.id for x in elts if isinstance(x, ast.Name)]
+            if names and len(names) == len(elts) and all(n in ("int", "str", "float", "bool", "bytes", "slice", "complex") for n in names):
+                return test.left.args[0].id, isinstance(test.ops[0], (ast.In, ast.Is))
+        return None
+
+    @staticmethod
     def iterable_test(test) -> Optional[Tuple[str, bool]]:
         t, positive = test, True
         while isinstance(t, ast.UnaryOp) and isinstance(t.op, ast.Not):
@@ -305,12 +469,17 @@ class BuildTaint:
         ks = [keep(a) for a in args]
         kws = {k.arg: keep(k.value) for k in c.keywords}
         fn = c.func
+        self.note_wrapper_store(f, c, ks, kws)
+        if isinstance(fn, ast.Attribute) and self.wraps_user_stream(f, fn.value):
+            d = self.draining_member(self.static_type(f, fn.value), fn.attr)
+            if d:
+                self.sink(f, c, f"a lazily wrapped user iterable is drained ({d})")
         if isinstance(fn, ast.Name) and fn.id in PROBES:
             return None
         if isinstance(fn, ast.Name) and fn.id == "hasattr":
             return None
         if isinstance(fn, ast.Name) and fn.id in LAZY_WRAPPERS:
-            return None
+            return LAZY if any(k in (RAW, LAZY) for k in ks) or any(self.wraps_user_stream(f, a) for a in args) else None
         if isinstance(fn, ast.Name) and fn.id in CONSUMERS and args and isinstance(args[0], ast.GeneratorExp):
             # a generator expression handed to a consumer runs now: analyse it as an eager comprehension
             ge = args[0]
@@ -319,6 +488,9 @@ class BuildTaint:
         if isinstance(fn, ast.Name) and fn.id in CONSUMERS:
             if ks and ks[0] in (RAW, SCALAR):
                 self.sink(f, c, f"{fn.id}() consumes / touches a user value")
+                return None
+            if fn.id not in ("bool", "hash", "str") and ((ks and ks[0] == LAZY) or (args and self.wraps_user_stream(f, args[0]))):
+                self.sink(f, c, f"{fn.id}() pulls from a lazily wrapped user iterable")
                 return None
             return BOX if ks and ks[0] == BOX else None
         if isinstance(fn, ast.Attribute):
@@ -329,6 +501,14 @@ class BuildTaint:
         if is_super_call(c) and f.cls is not None:
             t = self.prog.lookup_super(f.cls.qual, f.cls.qual, c.func.attr)
             targets = [t] if t is not None else []
+        if not any(isinstance(t, FuncInfo) for t in targets) and isinstance(fn, ast.Attribute) and not is_super_call(c):
+            rt = self.static_type(f, fn.value)
+            if rt is not None:
+                targets = [m for m in (self.prog.lookup(sc.qual, fn.attr) for sc in self.prog.subclasses(rt)) if m is not None]
+                targets = list({t.qual: t for t in targets}.values())
+            elif self.kind(f, fn.value, env) is None and not fn.attr.startswith("__") and not (fn.attr.startswith("_") and fn.attr.endswith("__")):
+                # receiver of unknown static type: resolve by name over the package (as the call graph does)
+                targets = [g for g in self.prog.functions.values() if g.name == fn.attr and g.cls is not None and ".entity_query_language." in g.qual]
         res = None
         for t in targets:
             if not isinstance(t, FuncInfo):
@@ -389,7 +569,9 @@ class BuildTaint:
     def add_field(self, cls_qual: str, name: str, kind: str):
         fi = self.prog.lookup_attr(cls_qual, name)
         key = (fi.owner if fi is not None else cls_qual, name)
-        rank = {None: 0, BOX: 1, SCALAR: 2, RAW: 3}
+        if any(key[0].endswith("." + c) and key[1] == n for c, n in FIELD_EXEMPT):
+            return
+        rank = {None: 0, LAZY: 1, BOX: 2, SCALAR: 3, RAW: 4}
         if rank.get(self.fields.get(key), 0) < rank.get(kind, 0):
             self.fields[key] = kind
 
@@ -404,6 +586,12 @@ class BuildTaint:
                 self.bind(x, k, env)
         elif isinstance(t, ast.Attribute) and isinstance(t.value, ast.Name) and t.value.id == "self" and k and self._cur.cls is not None:
             self.add_field(self._cur.cls.qual, t.attr, k)
+            if k == LAZY:
+                fi = self.prog.lookup_attr(self._cur.cls.qual, t.attr)
+                key = (fi.owner if fi is not None else self._cur.cls.qual, t.attr)
+                if key not in self.stream_fields:
+                    self.stream_fields.add(key)
+                    self.requeue_readers(t.attr)
         elif isinstance(t, ast.Subscript) and k and isinstance(t.value, ast.Attribute) and isinstance(t.value.value, ast.Name) and t.value.value.id == "self" and self._cur.cls is not None:
             self.add_field(self._cur.cls.qual, t.value.attr, BOX)
         elif isinstance(t, ast.Subscript) and k and isinstance(t.value, ast.Name):
@@ -439,6 +627,9 @@ class BuildTaint:
                 pt = self.plain_container_test(s.test)
                 if pt is not None and env.get(pt) in (RAW, SCALAR):
                     e1[pt] = BOX
+                bs = self.builtin_scalar_test(s.test)
+                if bs is not None and env.get(bs[0]) in (RAW, SCALAR):
+                    (e1 if bs[1] else e2)[bs[0]] = ""
                 # is_iterable(x): on the false side x is a non-iterable user value; a known scalar kills the true side
                 it = self.iterable_test(s.test)
                 dead_body = dead_else = False
@@ -463,7 +654,7 @@ class BuildTaint:
                     continue
                 ends1 = bool(s.body) and isinstance(s.body[-1], (ast.Return, ast.Raise, ast.Continue, ast.Break))
                 # names the positive branch re-assigns to something clean are clean afterwards when the test was `not isinstance`
-                rank = {"": 0, None: 0, BOX: 1, SCALAR: 2, RAW: 3}
+                rank = {"": 0, None: 0, LAZY: 1, BOX: 2, SCALAR: 3, RAW: 4}
                 for k in set(e1) | set(e2):
                     a, b = e1.get(k), e2.get(k)
                     if ends1:
@@ -480,6 +671,8 @@ class BuildTaint:
                 k = self.kind(f, s.iter, env)
                 if k == RAW:
                     self.sink(f, s.iter, "a user iterable is iterated while the query is built")
+                elif k == LAZY or self.wraps_user_stream(f, s.iter):
+                    self.sink(f, s.iter, "a lazily wrapped user iterable is iterated while the query is built")
                 self.bind(s.target, RAW if k in (RAW, BOX) else None, env)
                 self.block(f, s.body, env)
                 self.block(f, s.body, env)
